@@ -4,6 +4,11 @@ from ..terms import TermBuilder, fmt, mk, const
 from .common import SELF, self_field
 
 EXPLANATION = (
+    "R13-ring: incr/decr are successor/predecessor modulo the slot count. R13-swap-chain (typestate over the shifting loop): the "
+    "(continuation, remainder, used) triple of the next slot is read before that slot is overwritten with the carried triple, the "
+    "carried triple becomes the one just read, the position advances one slot per iteration, the loop continues while the displaced "
+    "slot was in use. R13-placement-flags: the new slot is marked shifted iff position != quotient, continuation iff appended to an "
+    "existing run, and the canonical slot occupied. R13-split: quotient/remainder are the documented bit fields of the hash. "
     "R13-contract: the returning paths of QuotientFilter::insert_internal partition by the facts on the path: scan(..).present => "
     "Ok(false) and no write; not present and n_elements == is_occupied.len() => Err and no write; otherwise exactly one "
     "`n_elements += 1`, is_occupied.set(quotient,true), remainders.set(position, remainder) and Ok(true). len/is_empty read "
@@ -73,6 +78,10 @@ def run(ctx):
               "all %d inserting paths: remainders.set(position, remainder), is_occupied.set(quotient, true), one n_elements += 1, Ok(true)" % len(classes["insert"]),
               "inserting path breaks the contract: %s" % "; ".join(sorted(set(probs))[:3]))
 
+    ring_rules(ctx)
+    swap_chain_rules(ctx, ii)
+    split_rules(ctx)
+
     # wrappers
     ins = ctx.anchor("<%s as filters::Filter[T]>::insert" % QF)
     qry = ctx.anchor("<%s as filters::Filter[T]>::query" % QF)
@@ -102,3 +111,196 @@ def run(ctx):
         ws = [w for (wevs, _, _) in alts for w in wevs if w["root"] == SELF]
         ctx.check(not ws and sc.local_ty(1).startswith("&") and not sc.local_ty(1).startswith("&mut"), "R13-scan-readonly", sc.key, sc,
                   "scan takes &self and writes nothing", "scan writes filter state")
+
+
+# ---- additional structural rules (deepening) ---------------------------------------------------------
+
+def ring_rules(ctx):
+    """R13-ring: incr/decr are the successor/predecessor on the ring of 2^q slots"""
+    from ..paths import PathEnumerator
+    prog = ctx.prog
+    selfp = ("param", 1, "self")
+    ln = ("call", "fixedbitset::FixedBitSet::len", (("field", selfp, "is_occupied"),))
+    pos = ("param", 2, "pos")
+    specs = {
+        "incr": (mk("Eq", pos, mk("Sub", ln, const(1))), const(0), mk("Add", pos, const(1))),
+        "decr": (mk("Eq", pos, const(0)), mk("Sub", ln, const(1)), mk("Sub", pos, const(1))),
+    }
+    for nm, (guard, wrapv, stepv) in specs.items():
+        f = ctx.anchor(QF + "::" + nm)
+        if f is None:
+            continue
+        pe = PathEnumerator(f, prog, ctx.summ)
+        probs = []
+        n = 0
+        for p in pe.paths():
+            if p.exit_kind != "return":
+                continue
+            n += 1
+            facts = {repr(c): t for c, t in pe.path_facts(p)}
+            ws = [e for e in p.events if e["kind"] == "write" and e["root"] == ("param", 2) and e["how"] == "store"]
+            g = facts.get(repr(guard))
+            if len(ws) != 1 or g is None:
+                probs.append("path without exactly one store to *pos under the wrap test")
+                continue
+            # the stored value is a phi resolved on this path: recompute from the path's branch
+            v = ws[0]["value"]
+            alts = set(map(repr, v[1])) if v[0] == "phi" else {repr(v)}
+            if alts != {repr(wrapv), repr(stepv)} and alts != {repr(wrapv if g else stepv)}:
+                probs.append("*pos becomes %s" % fmt(v))
+        # which constant/step is chosen under which fact: check the defining blocks
+        tb = TermBuilder(f, prog)
+        from ..guards import atomic_facts
+        for bi, blk in enumerate(f.blocks):
+            for si, st in enumerate(blk.stmts):
+                if st.k == "assign" and st.place.is_local() and f.local_ty(st.place.local) == "usize" and not f.local_name(st.place.local):
+                    t = tb.rvalue(st.rv, bi, si)
+                    fs = {repr(c): tr for c, tr in atomic_facts(f, prog, bi, tb)}
+                    if t == wrapv and fs.get(repr(guard)) is False:
+                        probs.append("wrap value chosen on the non-wrapping branch")
+                    if t == stepv and fs.get(repr(guard)) is True:
+                        probs.append("step value chosen on the wrapping branch")
+        ctx.check(not probs and n == 2, "R13-ring", f.key, f, "%s: %s ? %s : %s" % (nm, fmt(guard), fmt(wrapv), fmt(stepv)), "; ".join(sorted(set(probs))[:2]) or "%d paths" % n)
+
+
+def swap_chain_rules(ctx, ii):
+    """R13-swap-chain: in the shifting loop every slot's (continuation bit, remainder, used flag) is read before the slot is
+    overwritten with the carried triple, the carried triple becomes the one just read, and the loop runs while the carried slot was used"""
+    prog = ctx.prog
+    selfp = ("param", 1, "self")
+    tb = TermBuilder(ii, prog)
+    heads = ii.loop_heads()
+    if len(heads) != 1:
+        ctx.shape("R13-swap-chain", ii.key, ii, "expected exactly one loop (the swap chain), found %d" % len(heads))
+        return
+    h = heads[0]
+    body = ii.natural_loop(h)
+    A = lambda bi, t: [tb.operand(x, bi, len(ii.blocks[bi].stmts)) for x in t.args]
+    incr = [(bi, t) for bi, t in ii.calls() if bi in body and t.callee_name() == "incr"]
+    sets = [(bi, t, A(bi, t)) for bi, t in ii.calls() if bi in body and t.callee_name() == "set"]
+    reads = [(bi, t, A(bi, t)) for bi, t in ii.calls() if bi in body and t.callee_name() in ("index", "get")]
+    probs = []
+    if len(incr) != 1:
+        probs.append("%d incr calls in the chain loop" % len(incr))
+    else:
+        pos_lv = A(*incr[0])[1]
+        if pos_lv[0] != "loopvar":
+            probs.append("incr is not applied to the carried position")
+        P1 = ("call", QF + "::incr::out2", (selfp, pos_lv))
+        by_field = {}
+        for bi, t, a in sets:
+            fld = a[0][2] if a[0][0] == "field" else None
+            by_field[fld] = (bi, a)
+            if a[1] != P1:
+                probs.append("%s.set writes slot %s, not the slot after the carried position" % (fld, fmt(a[1])[:60]))
+        for fld in ("is_shifted", "is_continuation", "remainders"):
+            if fld not in by_field:
+                probs.append("the chain does not write %s" % fld)
+        rd_fields = {}
+        for bi, t, a in reads:
+            fld = a[0][2] if a[0][0] == "field" else None
+            rd_fields.setdefault(fld, []).append((bi, a))
+            if a[1] != P1:
+                probs.append("%s is read at %s, not at the slot about to be overwritten" % (fld, fmt(a[1])[:60]))
+        for fld in ("is_continuation", "remainders", "is_occupied", "is_shifted"):
+            if fld not in rd_fields:
+                probs.append("the old %s of the overwritten slot is not read" % fld)
+        # every read dominates every write (old contents are saved first)
+        # within one iteration no read of the slot may come after a write to it (old contents are saved first):
+        # a read block must not be reachable from a write block without passing the loop head
+        from ..guards import reach_without
+        for rb, _, _ in reads:
+            for sb, _, _ in sets:
+                if sb == rb or any(reach_without(ii, s_, rb, h) for s_ in ii.succs(sb) if s_ != h):
+                    probs.append("a slot is overwritten before its old contents are read")
+        if not probs:
+            is_c = ("index", ("field", selfp, "is_continuation"), P1)
+            rem = ("call", "<succinct::IntVector as succinct::IntVec>::get", (("field", selfp, "remainders"), P1))
+            # carried values written
+            wc, wr = by_field["is_continuation"][1][2], by_field["remainders"][1][2]
+            if by_field["is_shifted"][1][2] != const(True):
+                probs.append("shifted slot is not marked is_shifted")
+            if wc[0] != "loopvar" or wr[0] != "loopvar":
+                probs.append("written values are not the carried (continuation, remainder)")
+            else:
+                if tb.loop_update(wc[1], h) != is_c:
+                    probs.append("carried continuation bit becomes %s, expected the bit just read" % fmt(tb.loop_update(wc[1], h))[:80])
+                if tb.loop_update(wr[1], h) != rem:
+                    probs.append("carried remainder becomes %s, expected the remainder just read" % fmt(tb.loop_update(wr[1], h))[:80])
+            if tb.loop_update(pos_lv[1], h) != P1:
+                probs.append("position does not advance by exactly one slot per iteration")
+            # loop guard: carried `used`
+            hb = ii.blocks[h]
+            gd = tb.operand(hb.term.discr, h, len(hb.stmts)) if hb.term.k == "switch" else None
+            if gd is None or gd[0] != "loopvar":
+                probs.append("the chain loop is not guarded by the carried `used` flag")
+            else:
+                u = tb.loop_update(gd[1], h)
+                occ = ("index", ("field", selfp, "is_occupied"), P1)
+                shf = ("index", ("field", selfp, "is_shifted"), P1)
+                alts = set(map(repr, u[1])) if u[0] == "phi" else {repr(u)}
+                if alts != {repr(const(True)), repr(shf)}:
+                    probs.append("carried `used` becomes %s, expected is_occupied[p] || is_shifted[p]" % fmt(u)[:100])
+    ctx.check(not probs, "R13-swap-chain", ii.key, ii, "swap chain: read (cont, rem, used) of the next slot, then write the carried triple there, advance one slot, continue while used",
+              "; ".join(sorted(set(probs))[:3]))
+    # initial placement flags
+    from ..guards import atomic_facts
+    scan_t = ("call", QF + "::scan", (selfp, ("param", 2, "quotient"), ("param", 3, "remainder"), const(True)))
+    posn = ("field", scan_t, "position")
+    pre = [(bi, t, A(bi, t)) for bi, t in ii.calls() if bi not in body and t.callee_name() == "set"]
+    probs = []
+    seen = set()
+    for bi, t, a in pre:
+        fld = a[0][2] if a[0][0] == "field" else None
+        facts = {repr(c): tr for c, tr in atomic_facts(ii, prog, bi, tb)}
+        if fld == "is_shifted":
+            seen.add(fld)
+            if not (a[1] == posn and a[2] == const(True) and facts.get(repr(mk("Ne", posn, ("param", 2, "quotient")))) is True):
+                probs.append("is_shifted[position] is not set exactly under position != quotient")
+        if fld == "is_continuation":
+            seen.add(fld)
+            hr = ("call", "filters::quotientfilter::ScanResult::has_run", (scan_t,))
+            hr2 = ("call", "std::option::Option::is_some", (("field", scan_t, "start_of_run"),))
+            if not (a[1] == posn and a[2] == const(True) and (facts.get(repr(hr)) is True or facts.get(repr(hr2)) is True)):
+                probs.append("is_continuation[position] is not set under has_run && !at_start_of_run")
+        if fld == "is_occupied":
+            seen.add(fld)
+            if not (a[1][:2] == ("param", 2) and a[2] == const(True)):
+                probs.append("is_occupied is set at %s" % fmt(a[1]))
+    ctx.check(not probs and seen == {"is_shifted", "is_continuation", "is_occupied"}, "R13-placement-flags", ii.key, ii,
+              "new slot: shifted iff position != quotient, continuation iff appended to an existing run, canonical slot marked occupied",
+              "; ".join(sorted(set(probs))[:3]) or "flag writes found: %s" % sorted(seen))
+
+
+def split_rules(ctx):
+    """R13-split: calc_quotient_remainder keeps the low bits_quotient + bits_remainder bits of the hash; remainder = low
+    bits_remainder bits, quotient = the next bits_quotient bits"""
+    prog = ctx.prog
+    f = ctx.anchor(QF + "::calc_quotient_remainder")
+    if f is None:
+        return
+    selfp = ("param", 1, "self")
+    r = TermBuilder(f, prog).return_term()
+    h = ("call", "std::hash::BuildHasher::hash_one", (("field", selfp, "buildhasher"), ("param", 2, f.local_name(2))))
+    br = ("call", "<succinct::IntVector as succinct::IntVec>::element_bits", (("field", selfp, "remainders"),))
+    bq = ("field", selfp, "bits_quotient")
+    keep = mk("Sub", const(64), mk("Sub", mk("Sub", const(64), br), bq))          # 64 - bits_trash
+    trash = ("phi", tuple(sorted([const(0), mk("Shl", mk("Shr", h, keep), keep)], key=repr)))
+    clean = mk("Sub", h, trash)
+    want_q = mk("Shr", clean, br)
+    want_r = mk("Sub", clean, mk("Shl", want_q, br))
+    okr = r == ("tuple", (want_q, want_r))
+    ctx.check(okr, "R13-split", f.key, f, "quotient = clean >> bits_remainder, remainder = clean - (quotient << bits_remainder), clean = hash without its top 64-q-r bits",
+              "calc_quotient_remainder returns %s" % fmt(r)[:300])
+    # the trash branch: 0 exactly when bits_trash == 0
+    from ..guards import atomic_facts
+    tb = TermBuilder(f, prog)
+    bt = mk("Sub", mk("Sub", const(64), br), bq)
+    oks = False
+    for bi, blk in enumerate(f.blocks):
+        for si, st in enumerate(blk.stmts):
+            if st.k == "assign" and st.rv.k == "use" and st.rv.ops[0].k == "const" and st.rv.ops[0].value() == 0 and f.local_ty(st.place.local) == "u64":
+                fs = {repr(c): tr for c, tr in atomic_facts(f, prog, bi, tb)}
+                if fs.get(repr(mk("Lt", const(0), bt))) is False:
+                    oks = True
+    ctx.check(oks, "R13-split", f.key + ":no-trash", f, "no bits are dropped exactly when q + r == 64", "the `bits_trash > 0` case split is missing or inverted")
